@@ -171,10 +171,19 @@ class Machine(Interp):
     def e_JoinedStr(self, n, env):
         # f-string: opaque text unless every part is concrete
         parts = []
+        opaque = False
         for v in n.values:
             if isinstance(v, ast.Constant):
                 parts.append(v.value)
             else:
+                if any(isinstance(c, ast.Call) for c in ast.walk(v.value)):
+                    # calls inside an f-string run like anywhere else (effects, exceptions, branching)
+                    x = self.eval(v.value, env)
+                    if not (isinstance(x, (str, int)) and not isinstance(x, bool) and v.format_spec is None and v.conversion == -1):
+                        opaque = True
+                    else:
+                        parts.append(str(x))
+                    continue
                 try:
                     self.nofork += 1
                     try:
@@ -187,6 +196,8 @@ class Machine(Interp):
                     parts.append(str(x))
                 else:
                     return self.fresh_scalar("str", "fstr")
+        if opaque:
+            return self.fresh_scalar("str", "fstr")
         return "".join(parts)
 
     def e_Tuple(self, n, env):
@@ -354,6 +365,10 @@ class Machine(Interp):
             if root.id not in env.locals:
                 return None
         if isinstance(n.func, ast.Name) and n.func.id == "print" and "print" not in env.locals:
+            # the text goes nowhere the program can read back; calls inside the arguments still run
+            if any(isinstance(c, ast.Call) for a in n.args for c in ast.walk(a)):
+                vals = [self.eval(a, env) for a in n.args if not isinstance(a, ast.Starred)]
+                self.output_log.append(("print", vals[0] if len(vals) == 1 else tuple(vals), None))
             return None
         if isinstance(n.func, ast.Name) and n.func.id == "super":
             return self.make_super(env, n)
